@@ -55,7 +55,47 @@ C10_TEXT = ('Theorem C10_limit_after_successful_writes: for every configuration 
             'Partial: monotonicity in M and determinism are checked by the correspondence run / sweep oracle only. Known finding PreallocAboveLimit (witness lemma in props/C10.v).')
 TILING = ('Coq proof: tiling invariant sink = chunk[0..remaining_content_start) through lexer, tag scanner, bookmark hand-offs, dispatcher and stream '
           '(proofs/Tiling.v, generic in the table) + side conditions decided by vm_compute on the regenerated table (proofs/TableFacts.v); extraction-based correspondence run')
+COROLL = 'Coq proof: corollary of the tiling theorem (proofs/Tiling.v, Corollaries.v) + extraction-based correspondence run; oracle on the implementation'
+LAWS = 'Coq proof: algebraic laws of the executable model of tokens/mutations/escaping (proofs/TokenLaws.v) + extraction-based correspondence run with random operation scripts'
 PROPS = {
+    'C02': dict(coq=['props/C02.vo'], families=[('grp-l1', 700, 15000), ('grp-l2mixed', 900, 20000), ('grp-l2edit', 500, 10000), ('utf8', 300, 6000)], projections=['full'], oracle=oracle_c02,
+        technique=COROLL,
+        level_text='Theorem C02_output_is_chunking_invariant_for_observers: for every observer controller and any two splits of the same bytes (incl. one-byte and empty writes) both successful runs emit the same bytes. '
+                   'Partial: invariance of the handler-visible events and of mutating configurations (C02_full_statement is kept visible, not proved) is decided by the correspondence run on chunking groups '
+                   '(the model is executed under every chunking of a group and must agree with the implementation call by call) plus the group oracle on the implementation.',
+        level_note='Trusted as C01. Group oracle: same configuration and input under 5 chunkings must give identical normalised events (text chunks of a node merged, exactly one last_in_text_node) and output.'),
+    'C06': dict(coq=['props/C06.vo'], families=[('pairs', 1600, 30000)], projections=['full'], oracle=oracle_c06,
+        technique=COROLL,
+        level_text='Theorem C06_output_independent_of_observers: any two observer controllers (H and H u O drive completely different scan/lex switching) emit the same bytes for the same input under any chunkings. '
+                   'Partial: equality of the events H itself receives (scanner simulates lexer) is decided by the correspondence run on (H, H u O) pairs and the pair oracle.',
+        level_note='Trusted as C01.'),
+    'C09': dict(coq=['props/C09.vo'], families=[('grp-l1', 500, 10000), ('grp-l2mixed', 600, 15000), ('l2mixed', 800, 20000)], projections=['pending'], oracle=oracle_c09, classify=classify_c09,
+        technique=COROLL,
+        level_text='Theorem C09_pending_is_the_buffered_tail: for every observer controller and chunking, after successful writes sink ++ buffered tail = bytes written, so exactly the unconsumed tail is held back. '
+                   'Partial: that the tail length is a function of the prefix alone and the per-state bounds (<= "<"+name or a look-ahead with no handlers) are decided by the correspondence run (pending bytes after every write) '
+                   'and by oracle_c09 (same prefix under different chunkings; absolute bound with no handlers). Known finding RequestLexemePending.',
+        level_note='Trusted as C01.'),
+    'C14': dict(coq=['props/C14.vo'], families=[('l2match', 700, 20000), ('l2mixed', 700, 20000), ('grp-l2mixed', 600, 10000), ('utf8', 300, 6000)], projections=['events'], oracle=oracle_c14, classify=classify_c14,
+        technique='Coq proof of the absolute-range lemma + extraction-based correspondence run on every source_location() value; oracle slices the original input',
+        level_text='Theorem C14_absolute_range_denotes_the_lexeme: the absolute range attached to a token denotes, in the whole document, exactly the bytes of the lexeme in the parse buffer, for every prefix/buffer/range. '
+                   'Partial: monotonicity, disjointness and attribute ranges are decided by the correspondence run (all source locations incl. attribute name/value) and by oracle_c14 on the implementation.',
+        level_note='Trusted as C01. A genuine defect (valueless attribute locations) was repaired, see known_findings.txt.'),
+    'C07': dict(coq=['props/C07.vo'], families=[('l2edit', 1200, 30000), ('l2mixed', 800, 20000)], projections=['out_bytes', 'handlers'], oracle=oracle_none,
+        technique=LAWS,
+        level_text='Theorems C07_*: token-level laws for every token and operation sequence: serialisation = before ++ (self | replacement) ++ after; before appends, after prepends, replace overwrites, remove keeps insertions; '
+                   'untouched tokens and untouched attributes are emitted verbatim. Partial: the stream-level statement (content removal, deferred end-tag edits, exact output = reference edit) is decided by the correspondence run: '
+                   'the model of Element/StartTag/EndTag/Comment/TextChunk/Doctype/DocumentEnd mutations is executed on random operation scripts and must produce the same bytes and the same handler observations.',
+        level_note='Trusted as C01 plus the hand model of rewritable units (coq/model/Rewriter.v).'),
+    'C08': dict(coq=['props/C08.vo'], families=[('l2edit', 1500, 30000)], projections=['out_bytes', 'handlers'], oracle=oracle_c08,
+        technique=LAWS,
+        level_text='Theorems C08_*: for every byte string, escaped text content has no < or > and decodes back; escaped attribute values have no double quote; accepted comment text has none of the four closing shapes; '
+                   'rejected setters leave the token unchanged. Partial: re-tokenisation of the output and the cross-encoding clause (encoding_rs external) are not proved; validators are compared with the implementation on biased strings.',
+        level_note='Trusted as C07.'),
+    'C16': dict(coq=['props/C16.vo'], families=[('l2edit', 800, 20000), ('l2match', 800, 20000)], projections=['handlers', 'events'], oracle=oracle_c16,
+        technique=LAWS,
+        level_text='Theorems C16_*: get(set n v) n = v, get after remove = None, set keeps the other attributes, lookups are ASCII case-insensitive, for every tag and name. Partial: agreement of the attribute outline with the '
+                   'WHATWG attribute grammar for every chunking is decided by correspondence (all getters, before and after edits) and an independent reference attribute parser (oracle_c16).',
+        level_note='Trusted as C07.'),
     'C01': dict(coq=['props/C01.vo'], families=[('l1', 1200, 30000), ('l2match', 600, 15000), ('grp-l1', 400, 8000), ('utf8', 400, 8000)], projections=['out_bytes'], oracle=oracle_c01,
         technique=TILING,
         level_text='Theorem C01_pass_through: for EVERY observer transform controller (arbitrary capture-flag policy at every tag = every set of observing handlers and every '
